@@ -227,6 +227,58 @@ def runHist (calls : List Call) : List Json :=
          | some res => reply res encDiff) :: go st' cs
   go .init calls
 
+open Nbdime.GitCfg in
+def decChunk : Json → Except String Chunk
+  | .str "diffLine" => pure .diffLine
+  | .str "mergeLine" => pure .mergeLine
+  | .arr #[.str "foreign", .str s, .bool d, .bool m] => pure (.foreign s d m)
+  | _ => throw "bad chunk"
+
+open Nbdime.GitCfg in
+def encChunk : Chunk → Json
+  | .diffLine => .str "diffLine"
+  | .mergeLine => .str "mergeLine"
+  | .foreign s d m => .arr #[.str "foreign", .str s, .bool d, .bool m]
+
+open Nbdime.GitCfg in
+def decCmd : Json → Except String Cmd
+  | .str "enableDiffDriver" => pure .enableDiffDriver
+  | .str "disableDiffDriver" => pure .disableDiffDriver
+  | .str "enableMergeDriver" => pure .enableMergeDriver
+  | .str "disableMergeDriver" => pure .disableMergeDriver
+  | .arr #[.str "enableDiffTool", .bool sd] => pure (.enableDiffTool sd)
+  | .str "disableDiffTool" => pure .disableDiffTool
+  | .arr #[.str "enableMergeTool", .bool sd] => pure (.enableMergeTool sd)
+  | .str "disableMergeTool" => pure .disableMergeTool
+  | .str "enableAll" => pure .enableAll
+  | .str "disableAll" => pure .disableAll
+  | j => throw s!"bad cmd {j.compress}"
+
+open Nbdime.GitCfg in
+def encStore (s : Store) : Json :=
+  Json.mkObj [("cfg", .arr (s.cfg.map (fun (k, v) => Json.arr #[.str k, .str v])).toArray),
+              ("attrs", match s.attrs with
+                | none => .null
+                | some cs => .arr (cs.map encChunk).toArray)]
+
+open Nbdime.GitCfg in
+def handleGitCfg (req : Json) : Except String Json := do
+  let cfg ← match req.getObjVal? "cfg" with
+    | .ok (.arr xs) => xs.toList.mapM (fun kv => match kv with
+        | .arr #[.str k, .str v] => pure (k, v)
+        | _ => throw "bad cfg entry")
+    | _ => throw "gitcfg.cfg"
+  let attrs ← match req.getObjVal? "attrs" with
+    | .ok (.arr xs) => do pure (some (← xs.toList.mapM decChunk))
+    | _ => pure none
+  let cmds ← match req.getObjVal? "cmds" with
+    | .ok (.arr xs) => xs.toList.mapM decCmd
+    | _ => throw "gitcfg.cmds"
+  let rec go (s : Store) : List Cmd → List Json
+    | [] => []
+    | c :: cs => let s' := step s c; encStore s' :: go s' cs
+  pure (Json.mkObj [("ok", .arr (go ⟨cfg, attrs⟩ cmds).toArray)])
+
 def handle (req : Json) : Except String Json := do
   let cmd ← req.getObjValAs? String "cmd"
   match cmd with
@@ -234,6 +286,7 @@ def handle (req : Json) : Except String Json := do
       let doc ← decJ (req.getObjValD "doc")
       let d ← decDiff (req.getObjValD "diff")
       pure (reply (patch doc d) encJ)
+  | "gitcfg" => handleGitCfg req
   | "hist" =>
       match req.getObjVal? "calls" with
       | .ok (.arr xs) => do
